@@ -38,6 +38,9 @@ def gen(tier, seed, index):
     forced = [pool[(index // 4) % len(pool)]]
     if forced == ['jpre-shape'] and rng.random() < 0.5:
         forced.append('edgeless-internal')
+    if index % 16 == 9:
+        # matrix closure with a sparsely patterned base factor: successive iterates change the size of their storage
+        return G.gen_matrix_closure_spec(rng), dict(cls='linear', forced=['patterned-base-dense-recursion'], typed=True)
     if index % 16 == 5:
         # a long path automaton: the support needs many more sweeps than the grammar has nonterminals
         return G.gen_chain_spec(rng), dict(cls='linear', forced=['long-chain'], typed=False)
@@ -62,7 +65,8 @@ def spec_to_json(spec):
 def run_config(fggs, spec, S, method, jpre, dtype, grad, cot, zmask=None):
     """returns call outcome with value (dense tensor) and dict of grads"""
     import torch
-    fgg, info = G.build_fgg(fggs, spec, S, dtype, requires_grad=grad)
+    builder = G.pattern_weight_builder(fggs, spec, S) if 'patterns' in spec else None
+    fgg, info = G.build_fgg(fggs, spec, S, dtype, requires_grad=grad, weight_builder=builder)
     sr = G.make_semiring(fggs, S, dtype)
     tol = 1e-14 if dtype == torch.float64 else 1e-5
 
@@ -77,7 +81,13 @@ def run_config(fggs, spec, S, method, jpre, dtype, grad, cot, zmask=None):
                 loss = (z * c).sum()
             if loss.requires_grad:
                 loss.backward()
-            grads = {t: (w.grad.detach().clone() if w.grad is not None else None) for t, w in info['weights'].items()}
+            def gof(w):
+                g_ = w.grad
+                if g_ is None:
+                    return None
+                # a patterned weight's gradient is known on its storage only (nan elsewhere): compared where it is known
+                return g_.detach().clone() if isinstance(g_, torch.Tensor) else g_.to_dense().detach().clone()
+            grads = {t: gof(w) for t, w in info['weights'].items()}
         return z.detach(), grads
     return C.call(run)
 
@@ -150,7 +160,8 @@ def check_spec(spec, meta, index):
                                 if (ge[sel] != 0).any():
                                     viols.append(C.viol(f'grad-none:{jtag}:{S}:{method}', f'{t}.grad is None, reference {C.short(ge.tolist())}', context=ctx))
                                 continue
-                            go, gx = g.to(torch.float64)[sel], ge[sel]
+                            sel = sel & ~torch.isnan(g.to(torch.float64).reshape(ge.shape)) if 'patterns' in spec else sel
+                            go, gx = g.to(torch.float64).reshape(ge.shape)[sel], ge[sel]
                             obs['gradient_comparisons'] += int(sel.sum())
                             scale = float(gx.abs().max()) if gx.numel() else 0.0
                             rt, at = (1e-5, 1e-8) if f64 else (3e-2, 2e-4)
